@@ -8,6 +8,8 @@ Tie:      `pre`   function level: md5(model pre-image) == tokenize(...) on gener
           `trip`  determinism: deep copy, pickle round trip, rebuilt equal value
           `fresh` determinism in fresh interpreters with other hash seeds
           `opq`   oracle only: pandas objects, dataclasses, partials, callables, memmaps (not modelled)
+          `rec`   recursive containers (`__seen`): exact pre-image against Model/NormalFormRec.lean, determinism under
+                  rebuild / deepcopy / pickle, different structures -> different tokens
           `cat`   oracle only: a catalogue of further classes (numpy scalars / dtypes / ufuncs, bound methods, builtins,
                   Compose / curry / partial, literal, OrderedDict, MappingProxyType, frozenset, types, range, UUID,
                   pandas scalars / offsets / extension arrays / dtypes, recursive containers, masked / record / object /
@@ -436,6 +438,52 @@ def case_cat(ctx, inp):
                 ctx.fail(f"token changes after {name}", sig=f"nondet-{name}:catalog:{fam}", observed=sa)
 
 
+def case_rec(ctx, inp):
+    """recursive containers: the `__seen` bookkeeping; exact pre-image, determinism under deepcopy / pickle / rebuild"""
+    import hashlib
+    specs = inp["vals"]
+    try:
+        vals = [U.build_rec(s) for s in specs]
+    except ValueError:
+        return
+    try:
+        real = _tokenize(*vals)
+    except RecursionError:
+        ctx.fail("tokenize of a recursive container does not terminate (RecursionError)", sig=None, observed="RecursionError")
+        return
+    table = U.Table()
+    pre = ctx.lean(Sym("tokprerec"), *[U.enc_rec(s, table) for s in specs])
+    pre = U.resolve(str(pre), table)
+    if hashlib.md5(pre.encode(), usedforsecurity=False).hexdigest() != real:
+        from dask.tokenize import _normalize_seq_func
+        try:
+            impl = str(_normalize_seq_func(tuple(vals)))
+        except RecursionError:
+            impl = "RecursionError"
+        ctx.disagree("tokenize pre-image of recursive values", pre, impl)
+    again = [U.build_rec(s) for s in specs]
+    if _tokenize(*again) != real:
+        ctx.fail("recursive structure built twice gets different tokens", sig="nondet-rec-rebuilt", observed=real)
+    for name, mk in (("deepcopy", copy.deepcopy), ("pickle", lambda v: pickle.loads(pickle.dumps(v)))):
+        if _tokenize(*mk(vals)) != real:
+            ctx.fail(f"token of a recursive structure changes after {name}", sig="nondet-rec-" + name, observed=real)
+    if any(U.has_back(s) for s in specs):
+        ctx.branch("rec-with-back-reference")
+        if any(s[0] == "rdict" or (s[0] != "v" and "rdict" in json.dumps(s)) for s in specs):
+            ctx.branch("rec-through-dict")
+    else:
+        ctx.branch("rec-plain")
+    if "other" in inp:
+        try:
+            ov = [U.build_rec(s) for s in inp["other"]]
+        except ValueError:
+            return
+        if inp["other"] != specs and _tokenize(*ov) == real:
+            ctx.fail("structurally different recursive containers get the same token", sig="collision-rec",
+                     observed=real, expected="different tokens")
+        ctx.branch("rec-pair")
+
+
 def case_opq(ctx, inp):
     sa, sb = inp["a"], inp["b"]
     a, b = _build_opq(sa), _build_opq(sb)
@@ -460,7 +508,7 @@ def case_opq(ctx, inp):
             ctx.fail(f"token changes after {name}", sig=f"nondet-{name}:{sa[0]}", observed=[ta, _tokenize(w)])
 
 
-CASES = {"pre": case_pre, "pair": case_pair, "trip": case_trip, "fresh": case_fresh, "opq": case_opq, "cat": case_cat}
+CASES = {"pre": case_pre, "pair": case_pair, "trip": case_trip, "fresh": case_fresh, "opq": case_opq, "cat": case_cat, "rec": case_rec}
 
 
 # ----------------------------------------------------------------------------------------------
@@ -483,6 +531,16 @@ EXPLICIT_PAIRS = [
     (["nd", "<i8", [5], [["reshape", []]]], ["tuple", [["int", 5], ["str", "<i8"]]], "0d-vs-tuple"),
     (["nd", "<i8", [0, 1, 2], [["reshape", [3]]]], ["nd", "<f8", [0, 1, 2], [["reshape", [3]]]], "nd-dtype"),
     (["nd", "<i8", [], [["reshape", [0, 3]]]], ["nd", "<i8", [], [["reshape", [3, 0]]]], "nd-empty-shape"),
+]
+
+
+EXPLICIT_REC = [
+    {"vals": [["rlist", [["v", ["int", 1]], ["back", 0]]]], "other": [["rlist", [["v", ["int", 1]], ["rlist", [["v", ["int", 1]], ["back", 1]]]]]]},
+    {"vals": [["rdict", [[["str", "k"], ["v", ["int", 1]]], [["str", "self"], ["back", 0]]]]]},
+    {"vals": [["rtuple", [["rlist", [["v", ["int", 1]], ["back", 0]]], ["v", ["int", 2]]]]]},
+    {"vals": [["rlist", [["rdict", [[["int", 1], ["back", 1]], [["str", "1"], ["back", 0]]]], ["rtuple", [["back", 1]]]]]],
+     "other": [["rlist", [["rdict", [[["int", 1], ["back", 0]], [["str", "1"], ["back", 1]]]], ["rtuple", [["back", 1]]]]]]},
+    {"vals": [["rlist", [["back", 0]]], ["rlist", [["back", 0]]]]},
 ]
 
 
@@ -605,6 +663,15 @@ def generate(ctx):
     for _ in range(ctx.n(150, 1500)):
         a, b, label = _opq_specs(rng)
         yield "opq", {"a": a, "b": b, "label": label}
+    # recursive containers
+    for e in EXPLICIT_REC:
+        yield "rec", e
+    for _ in range(ctx.n(150, 1500)):
+        a = U.gen_rec(rng)
+        e = {"vals": [a]}
+        if rng.random() < 0.5:
+            e["other"] = [U.gen_rec(rng)]
+        yield "rec", e
     # catalogue: every entry against itself (built twice) and against the entries of its family; random cross pairs
     srcs = [s for s, _ in CATALOG]
     fams = {}
